@@ -421,6 +421,12 @@ func (mr *msgReader) Read(p []byte) (n int, err error) {
 		p = p[:n]
 		mr.dict.write(p)
 	}
+	if err == io.EOF && mr.flate && (!mr.fin || mr.payloadLength != 0) {
+		// The deflate stream ended with a final block before the end of the message.
+		// See https://tools.ietf.org/html/rfc7692#section-7.2.3.4
+		// The rest of the message carries no data and is discarded.
+		err = mr.discardRest()
+	}
 	if errors.Is(err, io.EOF) || errors.Is(err, io.ErrUnexpectedEOF) && mr.fin && mr.flate {
 		// The message only ends with the last byte of its final frame.
 		// Otherwise the connection ended in the middle of the message.
@@ -433,6 +439,17 @@ func (mr *msgReader) Read(p []byte) (n int, err error) {
 		return n, fmt.Errorf("failed to read: %w", err)
 	}
 	return n, nil
+}
+
+// discardRest reads the rest of the message. It returns io.EOF once the message is complete.
+func (mr *msgReader) discardRest() error {
+	var b [64]byte
+	for {
+		_, err := mr.read(b[:])
+		if err != nil {
+			return err
+		}
+	}
 }
 
 func (mr *msgReader) read(p []byte) (int, error) {
